@@ -536,9 +536,11 @@ func (e *Exec) loopEnv(st *State, fr *Frame, phis []*ssa.Phi, vals []Val) *SpecE
 			env.vars[k] = v
 		}
 	}
+	env.entry = map[string]sv{}
 	for i, p := range fr.Fn.Params {
 		if v, ok := fr.Env[p]; ok {
 			env.vars[paramName(p, i)] = sv{V: v, T: p.Type()}
+			env.entry[paramName(p, i)] = sv{V: v, T: p.Type()}
 		}
 	}
 	// named locals that live in allocs
@@ -547,6 +549,31 @@ func (e *Exec) loopEnv(st *State, fr *Frame, phis []*ssa.Phi, vals []Val) *SpecE
 			if p, ok := val.(*PtrVal); ok && p.Obj != 0 {
 				if _, live := st.Heap[p.Obj]; live {
 					env.vars[a.Comment] = sv{V: e.load(st, p), T: p.T}
+				}
+			}
+		}
+	}
+	// named locals that are plain SSA values (x := expr): the debug references of the function map the
+	// defining identifier to the value
+	for _, b := range fr.Fn.Blocks {
+		for _, in := range b.Instrs {
+			dr, ok := in.(*ssa.DebugRef)
+			if !ok || dr.IsAddr {
+				continue
+			}
+			id, ok := dr.Expr.(*ast.Ident)
+			if !ok || id.Name == "_" {
+				continue
+			}
+			if _, have := env.vars[id.Name]; have {
+				continue
+			}
+			if _, isPhi := dr.X.(*ssa.Phi); isPhi {
+				continue
+			}
+			if v, ok := fr.Env[dr.X]; ok && v != nil {
+				if obj := dr.Object(); obj != nil && obj.Pos() == id.Pos() {
+					env.vars[id.Name] = sv{V: v, T: dr.X.Type()}
 				}
 			}
 		}
